@@ -7,7 +7,10 @@ sys.path.insert(0, os.path.dirname(os.path.abspath(__file__)))
 import vlib, extract
 
 pid = sys.argv[1]
-d = json.load(open(os.path.join(vlib.VERIF, 'replays', pid + '-all.json')))
+import glob
+d = {'new': []}
+for fn in sorted(glob.glob(os.path.join(vlib.VERIF, 'replays', pid + '-all*.json'))):
+    d['new'] += json.load(open(fn))['new']
 tabs = {t['name']: t for t in extract.tables()}
 groups = collections.defaultdict(list)
 for v in d['new']:
@@ -29,10 +32,26 @@ for (site, sym), vs in sorted(groups.items()):
                 conds.append('%s >= %d' % (n, thr))
             if mx == lo and (1.0 / (hi - lo + 1)) ** len(vs) < 1e-6:
                 conds.append('%s == %d' % (n, lo))
+    if pid == 'C02':
+        # shape of the difference: frame count, length difference, the set of differing values
+        for fld in ('nframes',):
+            vals = {v['fields'].get(fld) for v in vs}
+            if len(vals) == 1 and len(vs) >= 3 and None not in vals and sym.startswith('sequence'):
+                conds.append('%s == %d' % (fld, vals.pop()))
+        if '-length' in sym:
+            diffs = {v['fields']['exp'] - v['fields']['got'] for v in vs}
+            if len(diffs) == 1 and len(vs) >= 3:
+                conds.append('exp - got == %d' % diffs.pop())
+            if len(vs) >= 3 and all(v['fields']['at'] == min(v['fields']['exp'], v['fields']['got']) for v in vs):
+                conds.append('at == min(exp, got)')
+        if '-values' in sym or '-sign' in sym:
+            pairs = sorted({tuple(p) for v in vs for p in v['fields'].get('pairs', [])})
+            if pairs and len(pairs) <= 12:
+                conds.append('all(tuple(p) in %r for p in pairs)' % (pairs,))
     extra = sorted({kk for v in vs for kk in v['fields'] if kk in ('scenario', 'kind', 'held', 'err', 'table', 'order')})
     pred = ' and '.join(conds) if conds else None
     fid = '%s-%s-%s' % (pid, site, sym)
-    if pred:
+    if pred and pid != 'C02':
         fid += '-' + ''.join(ch if ch.isalnum() else '_' for ch in pred)[:40]
     ent = dict(id=fid, property=pid, site=site, symptom=sym, predicate=pred,
                what='%s: %s%s - e.g. %s' % (site, sym, (' when ' + pred) if pred else '', vs[0]['detail'][:160]),
@@ -41,7 +60,8 @@ for (site, sym), vs in sorted(groups.items()):
     print(len(vs), fid, '|', pred)
 if '--apply' in sys.argv:
     ids = {e['id'] for e in out}
-    k['findings'] = [f for f in k['findings'] if f['id'] not in ids] + out
+    keys = {(e['site'], e['symptom']) for e in out} if pid == 'C02' else set()
+    k['findings'] = [f for f in k['findings'] if f['id'] not in ids and not (f.get('property') == pid and (f.get('site'), f.get('symptom')) in keys)] + out
     json.dump(k, open(os.path.join(vlib.VERIF, 'known_findings.json'), 'w'), indent=1)
     print('applied', len(out))
 os._exit(0)
